@@ -40,7 +40,11 @@ func drawC12Name(t *rapid.T, grown bool) string {
 	d := rapid.IntRange(1, 4).Draw(t, "depth")
 	var comps []string
 	for i := 0; i < d; i++ {
-		comps = append(comps, rapid.SampledFrom([]string{"a", "b", "c", "ab"}).Draw(t, "comp"))
+		// besides plain siblings, components that continue a sibling with a byte that sorts
+		// BEFORE '/' ('!', '+', '-', '.') or right after it ('0'): in byte order such names fall
+		// between a name and its children (a < a.b < a/b < a0), which matters to any
+		// implementation that looks for conflicts among sorted neighbours
+		comps = append(comps, rapid.SampledFrom([]string{"a", "b", "c", "ab", "a", "b", "a.b", "a-", "a+c", "a!", "a0", "b.", "..b"}).Draw(t, "comp"))
 	}
 	return strings.Join(comps, "/")
 }
